@@ -1,9 +1,10 @@
 //! Replay drivers over seglog, sierradb-protocol and sierradb (real crates, hooks on).
 use replay_common::*;
-use serde_json::{json, Value};
 
 mod u04;
+mod u05;
 
 fn main() {
-    main_with(&[Driver { name: "U04", search: u04::search, run: u04::run }]);
+    main_with(&[Driver { name: "U04", search: u04::search, run: u04::run },
+        Driver { name: "U05", search: u05::search, run: u05::run }]);
 }
